@@ -91,6 +91,172 @@ def _is_phase_loop(st):
 
 
 # ------------------------------------------------------------------------------------------
+# normalisation: behaviour-preserving spellings are brought to the form the handlers below translate.
+#   * `for p, name in enumerate(self.phases)`            ->  `for p in range(len(self.phases))`, name := self.phases[p]
+#   * single-assignment local temporaries (also tuple assignments and `[f(k) for k in (<constants>)]`)
+#     are substituted into their uses, `(a, b, c)[i]` is reduced to the element
+#   * `all(<expr in r> for r in (a, b, c))`                  ->  `<expr in a> and <expr in b> and <expr in c>`
+#   * `v = Ctor(...)` ... `self.X[p] = v`                    ->  `self.X[p] = Ctor(...)`, v := self.X[p] afterwards
+#   * `t1, t2 = e1, e2` on attributes                        ->  `t1 = e1; t2 = e2` (right-hand sides must be pure)
+# Substitution is only done where it cannot change the meaning: a temporary's value must be free of calls
+# and must not read what the function writes (a toDict may read self - it never writes it; a fromDict
+# temporary may read the dictionary only).  Anything else is left alone and is rejected by the handlers.
+class _Subst(ast.NodeTransformer):
+    def __init__(self, env):
+        self.env = env
+
+    def visit_Name(self, n):
+        if isinstance(n.ctx, ast.Load) and n.id in self.env:
+            return copy.deepcopy(self.env[n.id])
+        return n
+
+    def visit_Subscript(self, n):
+        n = self.generic_visit(n)
+        if (isinstance(n.value, (ast.Tuple, ast.List)) and isinstance(n.slice, ast.Constant) and isinstance(n.slice.value, int)
+                and 0 <= n.slice.value < len(n.value.elts) and not any(isinstance(e, ast.Starred) for e in n.value.elts)):
+            return n.value.elts[n.slice.value]
+        return n
+
+    def visit_Call(self, n):
+        n = self.generic_visit(n)
+        # all(<elt> for r in (<literal tuple>))
+        if (isinstance(n.func, ast.Name) and n.func.id == 'all' and len(n.args) == 1 and not n.keywords
+                and isinstance(n.args[0], (ast.GeneratorExp, ast.ListComp)) and len(n.args[0].generators) == 1):
+            g = n.args[0].generators[0]
+            if isinstance(g.target, ast.Name) and not g.ifs and isinstance(g.iter, (ast.Tuple, ast.List)) and g.iter.elts:
+                vals = [_Subst({g.target.id: e}).visit(copy.deepcopy(n.args[0].elt)) for e in g.iter.elts]
+                return vals[0] if len(vals) == 1 else ast.BoolOp(op=ast.And(), values=vals)
+        return n
+
+    def visit_ListComp(self, n):
+        n = self.generic_visit(n)
+        if len(n.generators) == 1:
+            g = n.generators[0]
+            if isinstance(g.target, ast.Name) and not g.ifs and isinstance(g.iter, (ast.Tuple, ast.List)) and g.iter.elts:
+                return ast.List(elts=[_Subst({g.target.id: e}).visit(copy.deepcopy(n.elt)) for e in g.iter.elts], ctx=ast.Load())
+        return n
+
+
+class _HidePhases(ast.NodeTransformer):
+    def visit_Attribute(self, n):
+        if _is_self_attr(n, 'phases'):
+            return ast.Constant(value=0)
+        return self.generic_visit(n)
+
+
+def _pure(e, forbid):
+    """no calls (except int / len / all), and none of the names in `forbid` is read; `self.phases` (the
+    configuration, never written by a toDict / fromDict - checked by the caller) may always be read"""
+    e = _HidePhases().visit(copy.deepcopy(e))
+    for n in ast.walk(e):
+        if isinstance(n, ast.Call) and not (isinstance(n.func, ast.Name) and n.func.id in ('int', 'len', 'all')):
+            return False
+        if isinstance(n, (ast.Lambda, ast.Await, ast.Yield, ast.YieldFrom, ast.NamedExpr, ast.Starred)):
+            return False
+        if isinstance(n, ast.Name) and n.id in forbid:
+            return False
+    return True
+
+
+def normalise(fn, mode, ctors=(), where=''):
+    """mode 'writer' (toDict-like: never writes self) or 'reader' (fromDict-like); returns the statement list"""
+    params = [a.arg for a in fn.args.args]
+    stores = {}
+    for n in ast.walk(fn):
+        if isinstance(n, ast.Name) and isinstance(n.ctx, ast.Store):
+            stores[n.id] = stores.get(n.id, 0) + 1
+    writes_self = any(isinstance(t, (ast.Attribute, ast.Subscript)) and any(isinstance(x, ast.Name) and x.id == 'self' for x in ast.walk(t))
+                      for n in ast.walk(fn) if isinstance(n, (ast.Assign, ast.AugAssign))
+                      for t in (n.targets if isinstance(n, ast.Assign) else [n.target]))
+    for n in ast.walk(fn):
+        if isinstance(n, (ast.Assign, ast.AugAssign)):
+            for t in (n.targets if isinstance(n, ast.Assign) else [n.target]):
+                if any(_is_self_attr(x, 'phases') for x in ast.walk(t)):
+                    return _body(fn)         # the phase list itself is written: nothing is substituted
+    if mode == 'writer' and writes_self:
+        return _body(fn)                     # not a pure writer: no substitution at all
+    dname = params[1] if (mode == 'reader' and len(params) > 1) else None
+    forbid = {'self'} if mode == 'reader' else set()
+    if mode == 'writer':
+        # the dictionary that is being filled must not be read through a temporary
+        b0 = _body(fn)
+        if b0 and isinstance(b0[0], ast.Assign) and isinstance(b0[0].targets[0], ast.Name):
+            forbid = {b0[0].targets[0].id}
+
+    def is_temp(name):
+        return name not in params and name not in forbid and stores.get(name, 0) == 1
+
+    def proc(stmts, env, pending):
+        out = []
+        for st in stmts:
+            # ---- loop header
+            if (isinstance(st, ast.For) and isinstance(st.target, ast.Tuple) and len(st.target.elts) == 2
+                    and all(isinstance(e, ast.Name) for e in st.target.elts) and not st.orelse
+                    and isinstance(st.iter, ast.Call) and isinstance(st.iter.func, ast.Name) and st.iter.func.id == 'enumerate'
+                    and len(st.iter.args) == 1 and not st.iter.keywords and _is_self_attr(st.iter.args[0], 'phases')
+                    and all(stores.get(e.id, 0) == 1 for e in st.target.elts)):
+                iv, nv = st.target.elts[0].id, st.target.elts[1].id
+                env2 = dict(env)
+                env2[nv] = ast.Subscript(value=ast.Attribute(value=ast.Name(id='self', ctx=ast.Load()), attr='phases', ctx=ast.Load()),
+                                         slice=ast.Name(id=iv, ctx=ast.Load()), ctx=ast.Load())
+                rng = ast.Call(func=ast.Name(id='range', ctx=ast.Load()),
+                               args=[ast.Call(func=ast.Name(id='len', ctx=ast.Load()), args=[st.iter.args[0]], keywords=[])], keywords=[])
+                new = ast.For(target=ast.Name(id=iv, ctx=ast.Store()), iter=rng, body=proc(st.body, env2, dict(pending)), orelse=[])
+                out.append(ast.copy_location(new, st))
+                continue
+            if isinstance(st, ast.For):
+                new = copy.copy(st)
+                new.iter = _Subst(env).visit(copy.deepcopy(st.iter))
+                new.body = proc(st.body, dict(env), dict(pending))
+                out.append(new)
+                continue
+            if isinstance(st, ast.If):
+                new = copy.copy(st)
+                new.test = _Subst(env).visit(copy.deepcopy(st.test))
+                new.body = proc(st.body, dict(env), dict(pending))
+                new.orelse = proc(st.orelse, dict(env), dict(pending))
+                out.append(new)
+                continue
+            if isinstance(st, ast.Assign) and len(st.targets) == 1:
+                tgt = st.targets[0]
+                # tuple assignment: split when the right-hand sides are pure
+                if isinstance(tgt, ast.Tuple):
+                    val = _Subst(env).visit(copy.deepcopy(st.value))
+                    if (isinstance(val, (ast.Tuple, ast.List)) and len(val.elts) == len(tgt.elts)
+                            and all(_pure(v, forbid) for v in val.elts)):
+                        for t, v in zip(tgt.elts, val.elts):
+                            out.extend(proc([ast.copy_location(ast.Assign(targets=[t], value=v), st)], env, pending))
+                        continue
+                    out.append(st)
+                    continue
+                if isinstance(tgt, ast.Name) and is_temp(tgt.id):
+                    val = _Subst(env).visit(copy.deepcopy(st.value))
+                    if isinstance(val, ast.Call) and isinstance(val.func, ast.Name) and val.func.id in ctors:
+                        pending[tgt.id] = val
+                        continue
+                    if _pure(val, forbid):
+                        env[tgt.id] = val
+                        continue
+                    new = copy.copy(st); new.value = val
+                    out.append(new)
+                    continue
+                # self.X[p] = v   with v a pending constructor call
+                if isinstance(st.value, ast.Name) and st.value.id in pending and not isinstance(tgt, ast.Name):
+                    new = ast.copy_location(ast.Assign(targets=[_Subst(env).visit(copy.deepcopy(tgt))], value=pending.pop(st.value.id)), st)
+                    load = copy.deepcopy(new.targets[0])
+                    for n in ast.walk(load):
+                        if hasattr(n, 'ctx') and isinstance(n.ctx, ast.Store):
+                            n.ctx = ast.Load()
+                    env[st.value.id] = load
+                    out.append(new)
+                    continue
+            out.append(_Subst(env).visit(copy.deepcopy(st)))
+        return out
+
+    return proc(_body(fn), {}, {})
+
+
+# ------------------------------------------------------------------------------------------
 # object fields
 def _glob_field(e, root=''):
     """self.<attr> -> field name"""
@@ -196,7 +362,7 @@ def translate_writer(cx, clsname, root=''):
     fn = _method(cx.cls(clsname), 'toDict', where)
     if [a.arg for a in fn.args.args] != ['self'] or fn.args.vararg or fn.args.kwarg:
         raise TranslationError('%s.toDict has unexpected parameters' % clsname, fn, where)
-    body = _body(fn)
+    body = normalise(fn, 'writer', where=where)
     wg, wp = [], []
     dname = None
     seen_loop = False
@@ -381,7 +547,7 @@ def translate_reader(cx, clsname, root=''):
         raise TranslationError('%s.fromDict has unexpected parameters' % clsname, fn, where)
     dname = ps[1]
     rg, rp = [], []
-    body = _body(fn)
+    body = normalise(fn, 'reader', ctors=tuple(cx.files), where=where)
     if len(body) == 1 and isinstance(body[0], ast.Pass):
         return [], []
 
@@ -458,6 +624,9 @@ def translate_reader(cx, clsname, root=''):
             k = data_get(e, keyfn)
             if k is not None:
                 return k, ('whole',)
+            if (isinstance(e, ast.Subscript) and isinstance(e.slice, ast.Constant) and isinstance(e.slice.value, int)
+                    and data_get(e.value, keyfn) is not None):
+                return data_get(e.value, keyfn), ('idx', e.slice.value)
             if isinstance(e, ast.Name) and e.id in loc:
                 return loc[e.id], ('whole',)
             if isinstance(e, ast.Subscript) and isinstance(e.value, ast.Name) and e.value.id in loc and isinstance(e.slice, ast.Constant) and isinstance(e.slice.value, int):
@@ -534,23 +703,97 @@ def translate_reader(cx, clsname, root=''):
 
 
 # ------------------------------------------------------------------------------------------
+def _endswith(t, fname):
+    """<fname>.endswith(S) -> S"""
+    if (isinstance(t, ast.Call) and isinstance(t.func, ast.Attribute) and t.func.attr == 'endswith'
+            and isinstance(t.func.value, ast.Name) and t.func.value.id == fname
+            and len(t.args) == 1 and not t.keywords and _str_const(t.args[0]) is not None):
+        return t.args[0].value
+    return None
+
+
+def _plus_suffix(e, fname):
+    """<fname> + S -> S"""
+    if (isinstance(e, ast.BinOp) and isinstance(e.op, ast.Add) and isinstance(e.left, ast.Name) and e.left.id == fname
+            and _str_const(e.right) is not None):
+        return e.right.value
+    return None
+
+
+def _is_name(e, fname):
+    return isinstance(e, ast.Name) and e.id == fname
+
+
 def _name_steps(stmts, fname, where, what):
-    """statements that turn the caller's file name into the name of the file: nothing, or exactly
-    `if not <name>.endswith(S): <name> += S`  ->  ('id',) | ('ensure_suffix', S)"""
+    """statements that turn the caller's file name into the name of the file: nothing, or
+    `if not <name>.endswith(S): <name> += S` (also `<name> = <name> + S`)  ->  ('id',) | ('ensure_suffix', S)"""
     if not stmts:
         return ('id',)
     if len(stmts) == 1 and isinstance(stmts[0], ast.If) and not stmts[0].orelse and len(stmts[0].body) == 1:
         t, b = stmts[0].test, stmts[0].body[0]
-        ok = (isinstance(t, ast.UnaryOp) and isinstance(t.op, ast.Not) and isinstance(t.operand, ast.Call)
-              and isinstance(t.operand.func, ast.Attribute) and t.operand.func.attr == 'endswith'
-              and isinstance(t.operand.func.value, ast.Name) and t.operand.func.value.id == fname
-              and len(t.operand.args) == 1 and not t.operand.keywords and _str_const(t.operand.args[0]) is not None
-              and isinstance(b, ast.AugAssign) and isinstance(b.op, ast.Add) and isinstance(b.target, ast.Name) and b.target.id == fname
-              and _str_const(b.value) == _str_const(t.operand.args[0]))
-        if ok:
-            return ('ensure_suffix', t.operand.args[0].value)
+        if isinstance(t, ast.UnaryOp) and isinstance(t.op, ast.Not):
+            suf = _endswith(t.operand, fname)
+            if suf is not None:
+                if (isinstance(b, ast.AugAssign) and isinstance(b.op, ast.Add) and _is_name(b.target, fname) and _str_const(b.value) == suf):
+                    return ('ensure_suffix', suf)
+                if (isinstance(b, ast.Assign) and len(b.targets) == 1 and _is_name(b.targets[0], fname) and _plus_suffix(b.value, fname) == suf):
+                    return ('ensure_suffix', suf)
     raise TranslationError('%s: the file name is computed in a way the translator does not know '
-                           '(accepted: the name as given, or `if not name.endswith(S): name += S`)' % what, stmts[0], where)
+                           '(accepted: the name as given, or `if not name.endswith(S): name += S`, directly or in a helper)' % what, stmts[0], where)
+
+
+def _compose_name(a, b, node, where, what):
+    if a == ('id',):
+        return b
+    if b == ('id',) or a == b:          # ensuring the same suffix twice is ensuring it once
+        return a
+    raise TranslationError('%s: two different file-name transformations in a row' % what, node, where)
+
+
+def _name_expr(e, fname, cx_cls, tree_funcs, where, what, depth=0):
+    """expression giving the file name as a function of the variable `fname`:
+    the variable; `X if X.endswith(S) else X + S` (or the negated test with swapped branches); a call of a
+    helper (method of the class - self.h(X), Class.h(X), cls.h(X) - or module function h(X)) whose body is
+    such an expression or `_name_steps` followed by `return X`, or `if X.endswith(S): return X` `return X + S`"""
+    if _is_name(e, fname):
+        return ('id',)
+    if isinstance(e, ast.IfExp):
+        t, a, b = e.test, e.body, e.orelse
+        if isinstance(t, ast.UnaryOp) and isinstance(t.op, ast.Not):
+            t, a, b = t.operand, b, a
+        suf = _endswith(t, fname)
+        if suf is not None and _is_name(a, fname) and _plus_suffix(b, fname) == suf:
+            return ('ensure_suffix', suf)
+    if isinstance(e, ast.Call) and len(e.args) == 1 and not e.keywords and depth < 2:
+        helper = None
+        f = e.func
+        if isinstance(f, ast.Attribute) and isinstance(f.value, ast.Name) and cx_cls is not None and f.value.id in ('self', 'cls', cx_cls.name):
+            helper = _method(cx_cls, f.attr, where, required=False)
+            static = helper is not None and any(isinstance(d, ast.Name) and d.id == 'staticmethod' for d in helper.decorator_list)
+            nskip = 0 if static else 1
+        elif isinstance(f, ast.Name) and f.id in tree_funcs:
+            helper, nskip = tree_funcs[f.id], 0
+        if helper is not None:
+            hp = [a.arg for a in helper.args.args][nskip:]
+            if len(hp) == 1 and not helper.args.vararg and not helper.args.kwarg and not helper.args.kwonlyargs:
+                inner = _name_expr(e.args[0], fname, cx_cls, tree_funcs, where, what, depth + 1)
+                hb = _body(helper)
+                x = hp[0]
+                res = None
+                if hb and isinstance(hb[-1], ast.Return) and hb[-1].value is not None:
+                    if len(hb) == 2 and isinstance(hb[0], ast.If) and not hb[0].orelse and len(hb[0].body) == 1 \
+                            and isinstance(hb[0].body[0], ast.Return) and _is_name(hb[0].body[0].value, x):
+                        suf = _endswith(hb[0].test, x)
+                        if suf is not None and _plus_suffix(hb[-1].value, x) == suf:
+                            res = ('ensure_suffix', suf)
+                    if res is None and _is_name(hb[-1].value, x):
+                        res = _name_steps(hb[:-1], x, where, what + ' (helper %s)' % helper.name)
+                    if res is None and len(hb) == 1:
+                        res = _name_expr(hb[0].value, x, cx_cls, tree_funcs, where, what, depth + 1)
+                if res is not None:
+                    return _compose_name(inner, res, e, where, what)
+    raise TranslationError('%s: the file name is computed in a way the translator does not know '
+                           '(accepted: the name as given, or `if not name.endswith(S): name += S`, directly or in a helper)' % what, e, where)
 
 
 def generic_wiring(cx):
@@ -574,7 +817,7 @@ def generic_wiring(cx):
     last = b[-1]
     ok = (isinstance(last, ast.Expr) and isinstance(last.value, ast.Call) and isinstance(last.value.func, ast.Attribute)
           and last.value.func.attr in ('savez_compressed', 'savez') and isinstance(last.value.func.value, ast.Name) and last.value.func.value.id == 'np'
-          and len(last.value.args) == 1 and isinstance(last.value.args[0], ast.Name) and last.value.args[0].id == fname
+          and len(last.value.args) == 1
           and len(last.value.keywords) == 1 and last.value.keywords[0].arg is None
           and isinstance(last.value.keywords[0].value, ast.Name) and last.value.keywords[0].value.id == dn)
     if not ok:
@@ -582,7 +825,8 @@ def generic_wiring(cx):
     for st in b[1:-1]:
         if any(isinstance(n, ast.Name) and n.id == dn for n in ast.walk(st)):
             raise TranslationError('GenericModel.save modifies the dictionary before writing it', st, where)
-    info['save_name'] = _name_steps(b[1:-1], fname, where, 'GenericModel.save')
+    info['save_name'] = _compose_name(_name_steps(b[1:-1], fname, where, 'GenericModel.save'),
+                                      _name_expr(last.value.args[0], fname, c, {}, where, 'GenericModel.save'), last, where, 'GenericModel.save')
     info['writer'] = last.value.func.attr
     b = _body(ld)
     fname = ld.args.args[1].arg
@@ -600,10 +844,11 @@ def generic_wiring(cx):
     ok = (isinstance(rd, ast.Assign) and len(rd.targets) == 1 and isinstance(rd.targets[0], ast.Name) and rd.targets[0].id == dn
           and isinstance(rd.value, ast.Call) and isinstance(rd.value.func, ast.Attribute) and rd.value.func.attr == 'load'
           and isinstance(rd.value.func.value, ast.Name) and rd.value.func.value.id == 'np'
-          and len(rd.value.args) == 1 and isinstance(rd.value.args[0], ast.Name) and rd.value.args[0].id == fname and not rd.value.keywords)
+          and len(rd.value.args) == 1 and not rd.value.keywords)
     if not ok:
         raise TranslationError('GenericModel.load does not read the dictionary with `data = np.load(%s)` just before fromDict' % fname, rd, where)
-    info['load_name'] = _name_steps(b[:-2], fname, where, 'GenericModel.load')
+    info['load_name'] = _compose_name(_name_steps(b[:-2], fname, where, 'GenericModel.load'),
+                                      _name_expr(rd.value.args[0], fname, c, {}, where, 'GenericModel.load'), rd, where, 'GenericModel.load')
     info['reader'] = 'np.load'
     return info
 
@@ -655,6 +900,18 @@ def strength_io(cx):
 
 # ------------------------------------------------------------------------------------------
 # surrogate fall-through
+def _always_returns(stmts):
+    """every path through the statement list ends in return / raise"""
+    if not stmts:
+        return False
+    last = stmts[-1]
+    if isinstance(last, (ast.Return, ast.Raise)):
+        return True
+    if isinstance(last, ast.If):
+        return _always_returns(last.body) and _always_returns(last.orelse)
+    return False
+
+
 def translate_surrogate(repo):
     path = os.path.join(repo, 'kawin/thermo/Surrogate.py')
     src = open(path).read()
@@ -679,8 +936,13 @@ def translate_surrogate(repo):
                 raise TranslationError('%s.%s uses self.therm more than once' % (c.name, fn.name), fn, where)
             body = _body(fn)
             # shape: [key = norm(self.phases, key)] ; if key in self.XModels: ... else: return self.therm.callee(...)
+            if len(body) == 3 and isinstance(body[1], ast.If) and not body[1].orelse and body[2] is rets[0] and _always_returns(body[1].body):
+                # `if trained: ... return ...` followed by the fall-through: the same as if / else
+                iff0 = copy.copy(body[1])
+                iff0.orelse = [body[2]]
+                body = [body[0], iff0]
             if len(body) != 2:
-                raise TranslationError('%s.%s: expected `key = <normalise>(self.phases, key)` followed by one if/else' % (c.name, fn.name), fn, where)
+                raise TranslationError('%s.%s: expected `key = <normalise>(self.phases, key)` followed by one if/else (or an if whose every path returns, followed by the fall-through)' % (c.name, fn.name), fn, where)
             a, iff = body
             ok = (isinstance(a, ast.Assign) and len(a.targets) == 1 and isinstance(a.targets[0], ast.Name)
                   and isinstance(a.value, ast.Call) and isinstance(a.value.func, ast.Name) and len(a.value.args) == 2 and not a.value.keywords
@@ -761,8 +1023,27 @@ def rbf_normalisation(tree, where):
             continue
         if after and any(isinstance(n, ast.Assign) and any(_is_self_attr(t) and t.attr in used for t in n.targets) for n in ast.walk(st)):
             raise TranslationError('RBFKernel.__init__ changes the normalisation after building the interpolant', st, where)
-    te = ast.unparse(Ren(xi).visit(copy.deepcopy(calls[0].args[0])))
-    pe = ast.unparse(Ren(xp).visit(copy.deepcopy(b[0].value.args[0])))
+    def inline(e):
+        """self.<helper>(arg) with a one-expression helper (self, x) -> its expression with x := arg"""
+        if (isinstance(e, ast.Call) and _is_self_attr(e.func) and len(e.args) == 1 and not e.keywords):
+            h = _method(c, e.func.attr, where, required=False)
+            if h is not None and len(h.args.args) == 2 and not h.args.vararg and not h.args.kwarg and not h.decorator_list:
+                hb = _body(h)
+                if len(hb) == 1 and isinstance(hb[0], ast.Return) and hb[0].value is not None \
+                        and not any(isinstance(n, ast.Call) for n in ast.walk(hb[0].value)):
+                    return _Subst({h.args.args[1].arg: e.args[0]}).visit(copy.deepcopy(hb[0].value))
+        return e
+    e_train, e_pred = inline(calls[0].args[0]), inline(b[0].value.args[0])
+    used = {n.attr for n in ast.walk(e_train) if _is_self_attr(n)}
+    after = False
+    for st in _body(init):
+        if st is tgt[0]:
+            after = True
+            continue
+        if after and any(isinstance(n, ast.Assign) and any(_is_self_attr(t) and t.attr in used for t in n.targets) for n in ast.walk(st)):
+            raise TranslationError('RBFKernel.__init__ changes the normalisation after building the interpolant', st, where)
+    te = ast.unparse(Ren(xi).visit(copy.deepcopy(e_train)))
+    pe = ast.unparse(Ren(xp).visit(copy.deepcopy(e_pred)))
     return te, pe
 
 
